@@ -324,6 +324,13 @@ theorem splitText_index_size (s : St) (n off : Nat) (nn : Node) (hf : s.find n =
   have hsp : CharData.splitText nn.data off = none := by simp [CharData.splitText, ho]
   simp only [Dom.step, hf]
   rcases hk with hk | hk <;> simp [hk, hsp]
+/-- splitText on a node that is neither Text nor CDATA (a comment, a PI, an element, ...) is refused and changes no tree -/
+theorem splitText_wrong_kind (s : St) (n off : Nat) (nn : Node) (hf : s.find n = some nn)
+    (h1 : nn.kind ≠ .text) (h2 : nn.kind ≠ .cdata) :
+    (Dom.step s (.splitText n off)).2 = .err .hierarchy ∧
+    (Dom.step s (.splitText n off)).1.doc = s.doc ∧ (Dom.step s (.splitText n off)).1.detached = s.detached := by
+  simp only [Dom.step, hf]
+  cases hk : nn.kind <;> simp_all
 end SplitPlace
 
 end XmlRs.C16
